@@ -191,7 +191,7 @@ func (s *c02State) produce(out *vgirpc.OutputCollector) error {
 	if done, err := s.fail(out, k); done {
 		return err
 	}
-	if k >= s.b {
+	if k >= s.b || k >= 50 { // at most 50 rows whatever the (possibly garbled) count says
 		return out.Finish()
 	}
 	if s.a == 17 {
